@@ -194,10 +194,14 @@ func main() {
 			argv = append(argv, cfg.Extra...)
 			// ulimit -v guards the box against a runaway shard
 			sh := fmt.Sprintf("ulimit -v %d; exec %s %s", cfg.MemMB*1024, shellQuote(bin), shellJoin(argv))
+			if cfg.Race {
+				// the race detector reserves terabytes of address space: no ulimit -v
+				sh = fmt.Sprintf("exec %s %s", shellQuote(bin), shellJoin(argv))
+			}
 			cmd := exec.CommandContext(ctx, "bash", "-c", sh)
 			cmd.Dir = filepath.Join(verifRoot, "harness", "props")
 			cmd.Env = append(os.Environ(), "VERIF_OUT="+outDir, "VERIF_SHARD="+strconv.Itoa(k), "VERIF_TIER="+tier,
-				"VERIF_KF="+filepath.Join(verifRoot, "known_findings.json"))
+				"VERIF_KF="+filepath.Join(verifRoot, "known_findings.json"), "GORACE=halt_on_error=1")
 			cmd.SysProcAttr = &syscall.SysProcAttr{Setpgid: true}
 			cmd.Cancel = func() error { return syscall.Kill(-cmd.Process.Pid, syscall.SIGKILL) }
 			var buf bytes.Buffer
@@ -223,15 +227,19 @@ func main() {
 			continue
 		}
 		if r.timeout {
-			if hang := hangReport(id, outDir, r.k); hang != "" {
-				fmt.Printf("VIOLATION property=%s replay=%s\n", id, hang)
-				fmt.Printf("  shard %d: call did not return within the deadline\n", r.k)
-				violations++
-				continue
-			}
+			// hangs are detected in-process (watchdog with its own failure file); running
+			// into the shard's wall-clock cap only means the budget was too small
 			fmt.Fprintf(os.Stderr, "INFRA: shard %d exceeded the wall-clock cap of %v (inconclusive)\n", r.k, deadline)
 			infra = true
 			continue
+		}
+		if r.err != nil && bytes.Contains(r.out, []byte("DATA RACE")) {
+			if rp := hangReport(id, outDir, r.k); rp != "" {
+				fmt.Printf("VIOLATION property=%s replay=%s\n", id, rp)
+				fmt.Printf("  shard %d: the race detector reported a data race:\n%s\n", r.k, clip(string(r.out), 1500))
+				violations++
+				continue
+			}
 		}
 		if r.err != nil {
 			fmt.Fprintf(os.Stderr, "INFRA: shard %d failed without a counter-example: %v\n%s\n", r.k, r.err, clip(string(r.out), 3000))
@@ -336,7 +344,7 @@ func runReplay(bin, file string, noKF bool, keep ...string) (violation bool, msg
 		// KNOWN-FINDING line is printed only while the defect is really still there
 		kf = "/dev/null"
 	}
-	cmd.Env = append(os.Environ(), "VERIF_OUT="+dir, "VERIF_REPLAY="+file, "VERIF_KF="+kf)
+	cmd.Env = append(os.Environ(), "VERIF_OUT="+dir, "VERIF_REPLAY="+file, "VERIF_KF="+kf, "GORACE=halt_on_error=1")
 	if noKF && len(keep) > 0 {
 		cmd.Env = append(cmd.Env, "VERIF_KF="+filepath.Join(verifRoot, "known_findings.json"), "VERIF_KF_KEEP="+strings.Join(keep, ","))
 	}
@@ -350,6 +358,9 @@ func runReplay(bin, file string, noKF bool, keep ...string) (violation bool, msg
 			}
 			_ = json.Unmarshal(fb, &f)
 			return true, f.Msg
+		}
+		if strings.Contains(string(out), "DATA RACE") {
+			return true, "the race detector reported a data race during the replay"
 		}
 		if ctx.Err() == context.DeadlineExceeded || strings.Contains(string(out), "test timed out") {
 			return true, "replay did not finish within 100 s (hang)"
